@@ -1,10 +1,10 @@
 CONSTANTS QN = 2
 MaxLen = 4
-NApply = 2
-Names1 = {"H","S"}
-Names2 = {"CX"}
-Rnd1 = {}
-Rnd2 = {}
+NApply = 1
+Names1 = {"H"}
+Names2 = {}
+Rnd1 = {"I", "S"}
+Rnd2 = {"CZ"}
 SPECIFICATION Spec
 INVARIANT Valid
 INVARIANT IncOK
